@@ -1428,13 +1428,16 @@ where
         .enumerate()
         .map(|(idx, x)| {
             let string_value = |key: &str| {
-                x[key].as_str().map(str::to_string).ok_or_else(|| {
-                    serde::de::Error::custom(format!(
-                        "Client #{}: {} must be a string",
-                        idx + 1,
-                        key
-                    ))
-                })
+                x.get(key)
+                    .and_then(Item::as_str)
+                    .map(str::to_string)
+                    .ok_or_else(|| {
+                        serde::de::Error::custom(format!(
+                            "Client #{}: {} is missing or not a string",
+                            idx + 1,
+                            key
+                        ))
+                    })
             };
             let username = string_value("username")?;
             let password = string_value("password")?;
